@@ -70,6 +70,8 @@ func (b *baseSpace) eventOps() []Op {
 			ops = append(ops, Op{K: "commit", N: 1}, Op{K: "commit", N: 3}, Op{K: "ncommit", N: 2})
 		case "ev:commit1":
 			ops = append(ops, Op{K: "commit", N: 1})
+		case "ev:ncommit":
+			ops = append(ops, Op{K: "ncommit", N: 2})
 		case "ev:cdrop":
 			ops = append(ops, Op{K: "cdrop"})
 		case "ev:creopen":
@@ -172,13 +174,18 @@ func (s *arrSmall) Ops(w *World) []Op {
 		ops = append(ops, Op{K: "settype", C: 0, N: 43})
 	}
 	if s.spec.Has("oob") {
-		cl := s.spec.Classes[0]
+		cls := s.spec.Classes[:1]
+		if s.spec.Extra["ooball"] == 1 {
+			cls = s.spec.Classes
+		}
 		for _, i := range oobIndexes(n) {
 			ops = append(ops, Op{K: "get", C: 0, I: i})
-			ops = append(ops, Op{K: "set", C: 0, I: i, V: cl})
 			ops = append(ops, Op{K: "remove", C: 0, I: i})
-			if i != n {
-				ops = append(ops, Op{K: "insert", C: 0, I: i, V: cl})
+			for _, cl := range cls {
+				ops = append(ops, Op{K: "set", C: 0, I: i, V: cl})
+				if i != n {
+					ops = append(ops, Op{K: "insert", C: 0, I: i, V: cl})
+				}
 			}
 		}
 	}
